@@ -162,6 +162,29 @@ pub fn gen_c06_case(g: &mut G) -> Value {
     gen::to_value(&case)
 }
 
+/// A member the struct-valued default `d` leaves out, that has a default of its own and is
+/// realised with another value.
+fn misfilled_member(schema: &Value, d: &Value, w: &Value) -> Option<(String, Value, Value)> {
+    let props = schema.get("properties")?.as_object()?;
+    let (dobj, wobj) = (d.as_object()?, w.as_object()?);
+    for (k, ps) in props {
+        let Some(want) = ps.get("default") else { continue };
+        if dobj.contains_key(k) {
+            continue;
+        }
+        if let Some(got) = wobj.get(k) {
+            let same = match (want, got) {
+                (Value::Number(a), Value::Number(b)) => a.as_f64() == b.as_f64(),
+                (a, b) => a == b,
+            };
+            if !same {
+                return Some((k.clone(), want.clone(), got.clone()));
+            }
+        }
+    }
+    None
+}
+
 /// which top-level item of gen.rs does `line` (1-based) belong to?
 fn enclosing_item(gen_rs: &str, line: usize) -> String {
     let lines: Vec<&str> = gen_rs.lines().collect();
@@ -343,6 +366,9 @@ impl Property for C06 {
             *j.counters.entry("realised_defaults".into()).or_default() += 1;
             if let Err((path, what)) = contained_default(&d, w) {
                 j.violations.push(Violation::new("default-differs", format!("{tag}: schema default {} for {} is realised as {} ({what} at {path})", d, schema, w)));
+            } else if let Some((k, want, got)) = misfilled_member(&schema, &d, w) {
+                // "up to filling of nested defaults": what is filled in is the member's own default
+                j.violations.push(Violation::new("default-member-misfilled", format!("{tag}: schema default {} for {} is realised as {}: member {k} was filled with {got}, its own default is {want}", d, schema, w)));
             } else if ok == Some(false) && !(w.is_null() && droppable_default(&d)) {
                 j.violations.push(Violation::new("realised-default-invalid", format!("{tag}: realised default {} is not valid under {}", w, schema)));
             }
